@@ -89,6 +89,26 @@ class StartStageHandler(
 
         def on_stage(stage: StageExecution) -> None:
             try:
+                # A synthetic (before / after) stage is only ever started while its
+                # parent is RUNNING. A NOT_STARTED parent was re-armed by a jump after
+                # this message was queued (or the message is a recovery duplicate for
+                # the re-armed child): starting the child now would run it ahead of
+                # its parent, and the parent's own iteration would later find the
+                # child already finished and wait for it for ever.
+                if stage.parent_stage_id is not None and self._parent_not_started(stage):
+                    logger.debug(
+                        "Ignoring stale StartStage for synthetic stage %s - parent was re-armed",
+                        stage.name,
+                    )
+                    if message.message_id:
+                        with self.repository.transaction(self.queue) as txn:
+                            txn.mark_message_processed(
+                                message_id=message.message_id,
+                                handler_type="StartStage",
+                                execution_id=message.execution_id,
+                            )
+                    return
+
                 # Get upstream stages from repository (returns empty list if none)
                 upstream_stages = self.repository.get_upstream_stages(stage.execution.id, stage.ref_id)
                 if upstream_stages is None:
@@ -250,6 +270,16 @@ class StartStageHandler(
                 self.retry_on_concurrency_error(do_mark_error, f"marking stage {stage.id} error")
 
         self.with_stage(message, on_stage)
+
+    def _parent_not_started(self, stage: StageExecution) -> bool:
+        """Is the parent of this synthetic stage NOT_STARTED (re-armed)?"""
+        if stage.parent_stage_id is None:
+            return False
+        try:
+            parent = self.repository.retrieve_stage(stage.parent_stage_id)
+        except ValueError:
+            return False
+        return parent.status == WorkflowStatus.NOT_STARTED
 
     def _start_if_ready(
         self,
